@@ -158,7 +158,8 @@ def run(tier, seed):
     small = (steps.small_texts("expr") + steps.small_texts("eqn")) if tier == "quick" else texts[h1 + h2:][::4]
     if tier == "quick":
         acc.merge(steps.run(V, small, 2, "any", seed, 0, key="small"))  # closure depth 2: the same rule objects see a tree and its rewrites
-    acc.merge(steps.run(V, small, "inplace", "any", seed, 0, key="small"))  # live-tree mode, 2 steps
+    inpl = small[::2] if tier == "quick" else small
+    acc.merge(steps.run(V, inpl, "inplace", "any", seed, 0, key="inpl"))  # live-tree mode, 2 steps
     # trees assembled from a piece and its clone: identical subtrees share node ids
     from ..gen import exprs as X
     dup = [f"{a} = {b} + {a}" for a in ("2x", "3x^2", "x + 1", "2 * y") for b in ("y", "3", "2x")]
